@@ -385,7 +385,6 @@ class Judge:
         self.res, self.case, self.o = res, case, o
         self.dn = case["daemon"]
         self.used = set()             # commit pids consumed by a message of the model
-        self.verdicts = []
         self.wit = None
 
     def witness(self):
@@ -948,25 +947,29 @@ def make_case(spec):
 
 
 def short_session(dn, j):
-    """deterministic short sessions (seed independent) for the exhaustive cut-point sweep"""
+    """deterministic short sessions (independent of VERIF_SEED, at most 400 bytes) for the
+    exhaustive cut-point sweep: session j cut after every byte"""
     rng = random.Random(7000 + j)
     c = {"daemon": dn, "cls": "cut-sweep", "cut": None, "ctl_db": None, "plan": "tee", "shim": None, "modelfree": False,
          "env": {"TCPREMOTEIP": b"192.0.2.7", "TCPREMOTEHOST": b"c.example", "TCPLOCALHOST": b"mx.local.test"}}
-    bodies = [b"Subject: a\n\nhello\n.dot\n", b"x\n", b"", b"Received: by x\n\nb\n"]
-    senders = [b"s@x.test", b""]
-    r1 = [[b"u@local.test"], [b"u@local.test", b"w@other.net", b"v@sub.a.test"]]
-    body, body2 = bodies[j % 4], bodies[(j + 1) % 4]
-    s = senders[j % 2]
-    rc = r1[(j // 2) % 2]
-    if j % 3 == 1:
-        c["env"]["RELAYCLIENT"] = b"@r.test" if dn != "qmqpd" else b""
-        if dn == "qmqpd":
-            c["env"].pop("RELAYCLIENT")
+    bodies = [b"Subject: a\n\nhello\n.dot\n", b"x\n", b"", b"Received: by x\n\nb\n", b"\n\n", b"..\n.\n", b"a\rb\n",
+              b"Delivered-To: u@local.test\nTo: u\n\n\0\xff\n"]
+    senders = [b"s@x.test", b"", b"a+b@c.d.e"]
+    rsets = [[b"u@local.test"], [b"u@local.test", b"w@other.net", b"v@sub.a.test"], [b"noat", b"W@LOCAL.TEST"], [b"w@other.net"]]
+    if j == 0:
+        pick = [(senders[0], rsets[1], bodies[0]), (b"t@y.test", [b"noat"], bodies[1])]
+    else:
+        pick = [(rng.choice(senders), rng.choice(rsets), rng.choice(bodies)) for _ in range(rng.choice([1, 2, 2]))]
+    if dn != "qmqpd" and rng.random() < 0.4:
+        c["env"]["RELAYCLIENT"] = rng.choice([b"", b"@r.test"])
+    if rng.random() < 0.3:
+        d = rng.choice([1, 5, 20])
+        c["ctl_db"] = d                      # some of the bodies are over this limit
     if dn == "smtpd":
         ch = []
-        if j % 2 == 0:
+        if rng.random() < 0.5:
             ch.append({"k": "helo", "arg": b"c.peer", "raw": b"EHLO c.peer\r\n"})
-        for (ss, rr, bb) in ((s, rc, body), (b"t@y.test", [b"noat"], body2)):
+        for (ss, rr, bb) in pick:
             ch.append({"k": "mail", "addr": ss, "raw": b"MAIL FROM:<" + ss + b">\r\n"})
             for a in rr:
                 ch.append({"k": "rcpt", "addr": a, "raw": b"RCPT TO:<" + a + b">\r\n"})
@@ -975,9 +978,11 @@ def short_session(dn, j):
         ch.append({"k": "quit", "raw": b"QUIT\r\n"})
         c["chunks"] = ch
     elif dn == "qmtpd":
-        c["wire"] = gen.qmtp_pkg(rng, body, s, rc, dos=(j % 2 == 1)) + gen.qmtp_pkg(rng, body2, b"t@y.test", [b"noat"], dos=False)
+        c["wire"] = b"".join(gen.qmtp_pkg(rng, bb, ss, rr, dos=rng.random() < 0.4) for ss, rr, bb in pick)
     else:
-        c["wire"] = gen.qmqp_pkg(rng, body, s, rc) + (b"" if j % 2 else b"trailing")
+        ss, rr, bb = pick[0]
+        c["wire"] = gen.qmqp_pkg(rng, bb, ss, rr) + rng.choice([b"", b"trailing"])
+    assert len(gen.wire_of(c)) <= 400
     return c
 
 
